@@ -1734,4 +1734,182 @@ example : (Coupling.solveCalls false (fun n => decide (3 ≤ n)) Coupling.pinit 
 -- hypothesis of solveCall_stops: the condition is met at the next row
 example : (fun n => decide (3 ≤ n)) ((⟨2, [1, 2]⟩ : Coupling.PSt).n + 1) = true := by decide
 
+/-! ## round 6: Zener drag of a host with several precipitate phases (computeZenerRadius) -/
+section zenerHost
+variable {α : Type} [Field α] [LinearOrder α] [IsStrictOrderedRing α]
+
+theorem foldl_add_eq_sum (l : List α) (a : α) : l.foldl (fun s x => s + x) a = a + l.sum := by
+  induction l generalizing a with
+  | nil => simp
+  | cons x xs ih => simp [List.foldl_cons, ih, add_assoc]
+
+/-- the entry `z[p]` of the code: the term of a phase with precipitates, 0 for a phase without -/
+def zEntry (pw : α → α → α) (p : ZPhase α) : α := if p.populated then zenerTerm pw p else 0
+
+theorem zenerDrag_eq_sum (pw : α → α → α) (phases : List (ZPhase α)) :
+    zenerDrag pw phases = (phases.map (zEntry pw)).sum := by
+  unfold zenerDrag; rw [foldl_add_eq_sum, zero_add]; rfl
+
+theorem zenerSpec_eq_sum (pw : α → α → α) (phases : List (ZPhase α)) :
+    zenerSpec pw phases = ((phases.filter (fun p => p.populated)).map (zenerTerm pw)).sum := by
+  unfold zenerSpec; rw [foldl_add_eq_sum]; simp
+
+/-- **the drag is the sum over the phases WITH precipitates**: a phase without precipitates (Ravg = 0: not nucleated yet,
+or dissolved) is skipped and contributes nothing — for every host (any number of phases, any position of the empty ones) -/
+theorem zenerDrag_skips_empty (pw : α → α → α) (phases : List (ZPhase α)) :
+    zenerDrag pw phases = zenerSpec pw phases := by
+  rw [zenerDrag_eq_sum, zenerSpec_eq_sum]
+  induction phases with
+  | nil => simp
+  | cons p ps ih => by_cases h : p.populated <;> simp [List.filter_cons, h, ih, zEntry]
+
+theorem zenerDrag_append (pw : α → α → α) (a b : List (ZPhase α)) :
+    zenerDrag pw (a ++ b) = zenerDrag pw a + zenerDrag pw b := by
+  simp [zenerDrag_eq_sum]
+
+/-- an empty phase at ANY position of the host's phase list leaves the drag of the others as it is (it never cancels them) -/
+theorem zenerDrag_insert_empty (pw : α → α → α) (a b : List (ZPhase α)) (e : ZPhase α) (he : e.populated = false) :
+    zenerDrag pw (a ++ e :: b) = zenerDrag pw (a ++ b) := by
+  simp [zenerDrag_eq_sum, zEntry, he]
+
+/-- the drag of a host = the drag of its populated phases alone -/
+theorem zenerDrag_filter (pw : α → α → α) (phases : List (ZPhase α)) :
+    zenerDrag pw phases = zenerDrag pw (phases.filter (fun p => p.populated)) := by
+  rw [zenerDrag_skips_empty, zenerDrag_skips_empty]; simp [zenerSpec, List.filter_filter]
+
+/-- **the drag does not depend on the order of the phases** -/
+theorem zenerDrag_perm (pw : α → α → α) {l₁ l₂ : List (ZPhase α)} (h : l₁.Perm l₂) :
+    zenerDrag pw l₁ = zenerDrag pw l₂ := by
+  rw [zenerDrag_eq_sum, zenerDrag_eq_sum]; exact (h.map _).sum_eq
+
+/-- hosts with the same populated phases (in any order, with any empty phases in between) have the same drag -/
+theorem zenerDrag_same_populated (pw : α → α → α) {l₁ l₂ : List (ZPhase α)}
+    (h : (l₁.filter (fun p => p.populated)).Perm (l₂.filter (fun p => p.populated))) :
+    zenerDrag pw l₁ = zenerDrag pw l₂ := by
+  rw [zenerDrag_filter pw l₁, zenerDrag_filter pw l₂]; exact zenerDrag_perm pw h
+
+theorem zEntry_nonneg (pw : α → α → α) (p : ZPhase α) (hf : 0 ≤ pw p.volFrac p.m) (hK : 0 < p.K) : 0 ≤ zEntry pw p := by
+  unfold zEntry
+  split
+  · next h =>
+    have hr : 0 < p.ravg := by simpa [ZPhase.populated] using h
+    unfold zenerTerm; exact div_nonneg hf (le_of_lt (mul_pos hK hr))
+  · exact le_refl _
+
+theorem zenerDrag_nonneg (pw : α → α → α) (phases : List (ZPhase α))
+    (h : ∀ p ∈ phases, 0 ≤ pw p.volFrac p.m ∧ 0 < p.K) : 0 ≤ zenerDrag pw phases := by
+  rw [zenerDrag_eq_sum]
+  apply List.sum_nonneg
+  intro x hx
+  obtain ⟨p, hp, rfl⟩ := List.mem_map.mp hx
+  exact zEntry_nonneg pw p (h p hp).1 (h p hp).2
+
+/-- **the other phases never cancel a pinning phase**: the drag of the host is at least the term of each populated phase -/
+theorem zenerDrag_ge_term (pw : α → α → α) (phases : List (ZPhase α))
+    (h : ∀ p ∈ phases, 0 ≤ pw p.volFrac p.m ∧ 0 < p.K) (q : ZPhase α) (hq : q ∈ phases) (hpop : q.populated = true) :
+    zenerTerm pw q ≤ zenerDrag pw phases := by
+  obtain ⟨a, b, rfl⟩ := List.append_of_mem hq
+  have ha := zenerDrag_nonneg pw a (fun p hp => h p (by simp [hp]))
+  have hb := zenerDrag_nonneg pw b (fun p hp => h p (by simp [hp]))
+  have : zenerDrag pw (a ++ q :: b) = zenerDrag pw a + (zenerTerm pw q + zenerDrag pw b) := by
+    rw [zenerDrag_append]; congr 1
+    have : q :: b = [q] ++ b := rfl
+    rw [this, zenerDrag_append]; simp [zenerDrag_eq_sum, zEntry, hpop]
+  rw [this]; linarith
+
+/-- **freezing for every host configuration**: when the drag of ONE pinning phase already exceeds the driving force of a
+boundary, the boundary does not move — whatever other phases the host has (empty or not) and in whatever order -/
+theorem zener_host_frozen (pw : α → α → α) (alpha M gbe g : α) (phases : List (ZPhase α)) (hd : 0 ≤ alpha * M * gbe)
+    (h : ∀ p ∈ phases, 0 ≤ pw p.volFrac p.m ∧ 0 < p.K) (q : ZPhase α) (hq : q ∈ phases) (hpop : q.populated = true)
+    (hg : |g| ≤ alpha * M * gbe * zenerTerm pw q) :
+    constrained alpha M gbe (zenerDrag pw phases) g = 0 :=
+  constrained_frozen _ _ _ _ _ (le_trans hg (mul_le_mul_of_nonneg_left (zenerDrag_ge_term pw phases h q hq hpop) hd))
+
+/-- freezing by the sum: drag of the populated phases ≥ |g| → frozen, in any phase order -/
+theorem zener_host_frozen_perm (pw : α → α → α) (alpha M gbe g : α) {l₁ l₂ : List (ZPhase α)}
+    (hp : (l₁.filter (fun p => p.populated)).Perm (l₂.filter (fun p => p.populated)))
+    (hg : |g| ≤ alpha * M * gbe * zenerSpec pw l₁) :
+    constrained alpha M gbe (zenerDrag pw l₂) g = 0 := by
+  apply constrained_frozen
+  rw [← zenerDrag_same_populated pw hp, zenerDrag_skips_empty]; exact hg
+
+/-- the early-exit variant agrees with the code on hosts whose phases ALL have precipitates (one-phase hosts with
+precipitates included) — which is why such hosts cannot tell the two apart -/
+theorem earlyExit_all_populated (pw : α → α → α) (phases : List (ZPhase α)) (acc : α)
+    (h : ∀ p ∈ phases, p.populated = true) :
+    zenerDragEarlyExit pw phases acc = acc + zenerDrag pw phases := by
+  induction phases generalizing acc with
+  | nil => simp [zenerDragEarlyExit, zenerDrag]
+  | cons p ps ih =>
+    have hp := h p (by simp)
+    rw [zenerDragEarlyExit, if_pos hp, ih _ (fun q hq => h q (by simp [hq]))]
+    have : p :: ps = [p] ++ ps := rfl
+    rw [this, zenerDrag_append]; simp [zenerDrag_eq_sum, zEntry, hp, add_assoc]
+
+/-- … and gives 0 as soon as one phase is empty, whatever the others are -/
+theorem earlyExit_zero_of_empty (pw : α → α → α) (phases : List (ZPhase α)) (acc : α)
+    (h : ∃ p ∈ phases, p.populated = false) : zenerDragEarlyExit pw phases acc = 0 := by
+  induction phases generalizing acc with
+  | nil => obtain ⟨p, hp, _⟩ := h; simp at hp
+  | cons p ps ih =>
+    rw [zenerDragEarlyExit]
+    by_cases hp : p.populated = true
+    · rw [if_pos hp]
+      apply ih
+      obtain ⟨q, hq, hqe⟩ := h
+      rcases List.mem_cons.mp hq with rfl | hq'
+      · rw [hp] at hqe; cases hqe
+      · exact ⟨q, hq', hqe⟩
+    · rw [if_neg hp]
+
+end zenerHost
+
+section zenerWitness
+/-- pinning phase: 1 % … as rationals: Ravg 1, volume fraction 1, m = 1 (`pw x _ = x`), K = 1 → term 1; empty phase: Ravg 0 -/
+def zPin : ZPhase ℚ := ⟨1, 1, 1, 1⟩
+def zEmpty : ZPhase ℚ := ⟨0, 0, 1, 1⟩
+def zPw : ℚ → ℚ → ℚ := fun x _ => x
+
+/-- WITNESS (early exit): [pinning, empty] and [empty, pinning] both give drag 0 with the early-exit variant, drag 1 with the code -/
+theorem early_exit_drops_pinning_phase :
+    zenerDragEarlyExit zPw [zPin, zEmpty] 0 = 0 ∧ zenerDragEarlyExit zPw [zEmpty, zPin] 0 = 0 ∧
+    zenerDrag zPw [zPin, zEmpty] = 1 ∧ zenerDrag zPw [zEmpty, zPin] = 1 := by
+  refine ⟨?_, ?_, ?_, ?_⟩ <;>
+    norm_num [zenerDragEarlyExit, zenerDrag, ZPhase.populated, zenerTerm, zPin, zEmpty, zPw]
+
+/-- WITNESS (early exit): a boundary with driving force 1/2 is frozen by the pinning phase (drag 1) with the code and
+moves at full speed with the early-exit variant, in either phase order -/
+theorem early_exit_not_frozen :
+    constrained 1 1 1 (zenerDrag zPw [zPin, zEmpty]) (1/2 : ℚ) = 0 ∧
+    constrained 1 1 1 (zenerDrag zPw [zEmpty, zPin]) (1/2 : ℚ) = 0 ∧
+    constrained 1 1 1 (zenerDragEarlyExit zPw [zPin, zEmpty] 0) (1/2 : ℚ) = 1/2 ∧
+    constrained 1 1 1 (zenerDragEarlyExit zPw [zEmpty, zPin] 0) (1/2 : ℚ) = 1/2 := by
+  refine ⟨?_, ?_, ?_, ?_⟩ <;>
+    norm_num [constrained, zenerDragEarlyExit, zenerDrag, ZPhase.populated, zenerTerm, zPin, zEmpty, zPw]
+
+/-- WITNESS (break): keeping the partial sum makes the drag depend on the phase order -/
+theorem break_depends_on_order :
+    zenerDragBreak zPw [zPin, zEmpty] 0 = 1 ∧ zenerDragBreak zPw [zEmpty, zPin] 0 = 0 := by
+  constructor <;> norm_num [zenerDragBreak, ZPhase.populated, zenerTerm, zPin, zEmpty, zPw]
+
+-- non-vacuity: the hypotheses of zenerDrag_ge_term / zener_host_frozen (a two-phase host, one phase empty, pinning phase strong enough)
+example : (∀ p ∈ [zEmpty, zPin], 0 ≤ zPw p.volFrac p.m ∧ 0 < p.K) ∧ zPin ∈ [zEmpty, zPin] ∧ zPin.populated = true ∧
+    (0:ℚ) ≤ 1 * 1 * 1 ∧ |(1/2 : ℚ)| ≤ 1 * 1 * 1 * zenerTerm zPw zPin := by
+  refine ⟨?_, by simp, by norm_num [ZPhase.populated, zPin], by norm_num, ?_⟩
+  · intro p hp; simp at hp; rcases hp with rfl | rfl <;> norm_num [zPw, zEmpty, zPin]
+  · norm_num [zenerTerm, zPw, zPin, abs_of_pos]
+-- hypothesis of zenerDrag_same_populated / zener_host_frozen_perm: [pin, empty] and [empty, pin] have the same populated phases
+example : ([zPin, zEmpty].filter (fun p => p.populated)).Perm ([zEmpty, zPin].filter (fun p => p.populated)) := by
+  have h1 : [zPin, zEmpty].filter (fun p => p.populated) = [zPin] := by
+    simp [List.filter_cons, ZPhase.populated, zPin, zEmpty]
+  have h2 : [zEmpty, zPin].filter (fun p => p.populated) = [zPin] := by
+    simp [List.filter_cons, ZPhase.populated, zPin, zEmpty]
+  rw [h1, h2]
+-- hypotheses of earlyExit_all_populated / earlyExit_zero_of_empty
+example : (∀ p ∈ [zPin, zPin], p.populated = true) ∧ (∃ p ∈ [zPin, zEmpty], p.populated = false) := by
+  constructor
+  · intro p hp; simp at hp; subst hp; norm_num [ZPhase.populated, zPin]
+  · exact ⟨zEmpty, by simp, by norm_num [ZPhase.populated, zEmpty]⟩
+end zenerWitness
+
 end KawinV.Props.C18
